@@ -37,6 +37,7 @@ void ExecImpl::op_destroy_mock(const Op& op) {
   int id = pick(M.live_mocks(), op.a[0]);
   if (id < 0 || busy_mocks.count(id)) return;
   MMock& m = M.mocks[id];
+  if (m.moved_to) ctx_moved_mock = true;
   std::vector<XRep> want;
   bool had_dependants = false;
   for (int f = 0; f < NFN; ++f) {
@@ -252,6 +253,7 @@ void ExecImpl::op_expect(const Op& op) {
 
 void ExecImpl::release_exp(int id) {
   MExp& e = M.exps[id];
+  if (e.mock >= 0 && M.mocks[static_cast<size_t>(e.mock)].moved_to) ctx_moved_mock = true;
   std::vector<XRep> want;
   if (e.attached && !e.named && !e.sat()) {
     XRep x; x.kind = RK_UNFULFILLED; x.fatal = false; x.exp = id; x.optional = e.maybe_named;
